@@ -426,6 +426,12 @@ where
         value: impl Borrow<Self::Input>,
     ) -> (usize, Self::Output) {
         let value = *value.borrow();
+        if value > self.u {
+            // All elements are smaller than or equal to u: the (strict)
+            // predecessor is the predecessor of u, and there are no zeros
+            // in the high bits to select beyond u >> l.
+            return self.pred_unchecked::<false>(self.u);
+        }
         let zeros_to_skip = value >> self.l;
         let mut bit_pos = self.high_bits.select_zero_unchecked(zeros_to_skip) - 1;
 
